@@ -44,4 +44,16 @@ StepTheorems ==
             /\ InRange(ser, sel, new, dn)
             /\ NotWorse(set, ser, avg, sel, new, dn)
             /\ ((\A k \in sel : ser[k] = avg) => \A i \in 1..Len(avg) : new[i][1] = dn * avg[i][1])
+
+\* the search form used for trace validation decides the same predicate as the declarative one: on every
+\* result of the step, on a perturbed result, and on a result at a wrong scale
+SearchAgrees ==
+    stage = 2 =>
+      \A ch \in ValidChoices :
+         LET new == NewOf(ser, avg, ch, sel)
+             dn == ScaleOf(avg, ch, sel)
+             bad == [new EXCEPT ![1] = [new[1] EXCEPT ![1] = @ + 1]]
+         IN /\ AllowedSearch(set, ser, avg, mask, new, dn) /\ Allowed(set, ser, avg, mask, new, dn)
+            /\ AllowedSearch(set, ser, avg, mask, bad, dn) = Allowed(set, ser, avg, mask, bad, dn)
+            /\ AllowedSearch(set, ser, avg, mask, new, dn + 1) = Allowed(set, ser, avg, mask, new, dn + 1)
 =============================================================================
